@@ -930,9 +930,34 @@ func (repo *Repository) consolidate(ctx context.Context) error {
 
 	// Reconnect other branches to the new main branch. This should result in the previously
 	// main branch being made a child to this branch.
+	// Branches between the oldest and longest branches have their headers, up to the height at
+	// which the longest chain left them, in the new main branch. Only the headers above that height
+	// remain a branch.
+	linkedHeights := make(map[*Branch]int)
+	for child := longestBranch; child.parent != nil && child.parent != oldestBranch; child = child.parent {
+		linkedHeights[child.parent] = child.parentHeight
+	}
+
 	for _, branch := range repo.branches {
 		if branch == oldestBranch || branch == longestBranch {
 			continue // already replaced by new branches
+		}
+
+		if linkedHeight, exists := linkedHeights[branch]; exists {
+			if branch.Height() == linkedHeight {
+				continue // all headers are in the new main branch
+			}
+
+			newBranch, err := branch.Truncate(ctx, repo.store, newMainBranch, linkedHeight)
+			if err != nil {
+				logger.ErrorWithFields(ctx, []logger.Field{
+					logger.String("branch_name", branch.Name()),
+					logger.Stringer("previous_block_hash", branch.PreviousHash()),
+				}, "Failed to truncate branch to main : %s", err)
+				continue
+			}
+			newBranches = append(newBranches, newBranch)
+			continue
 		}
 
 		newBranch, err := branch.Connect(ctx, repo.store, newBranches)
